@@ -205,6 +205,40 @@ func cmdSelftest(args []string) { fmt.Println("not implemented"); os.Exit(2) }
 // cmdProbe: consistency probe. The prelude, the spec definitions, the uninterpreted functions' axioms and the lemmas are given
 // to the MBQI-enabled solvers without any goal; "unsat" means the axioms contradict each other (every proof would be vacuous).
 // "unknown"/"timeout" is the expected answer (no contradiction found within the budget).
+// probeWorld runs the consistency probe and returns one line per solver and whether a contradiction was found.
+func probeWorld(w *World, timeout int) ([]string, bool) {
+	fc, header, err := w.LemmaObligations()
+	if err != nil {
+		return []string{"error: " + err.Error()}, false
+	}
+	dir, _ := os.MkdirTemp("", "govc-probe")
+	defer os.RemoveAll(dir)
+	body := header + strings.Join(fc.log, "\n") + "\n(check-sat)\n"
+	bad := false
+	var out []string
+	var wg sync.WaitGroup
+	var mu sync.Mutex
+	for _, sp := range solvers {
+		sp := sp
+		wg.Add(1)
+		go func() {
+			defer wg.Done()
+			f := dir + "/probe." + sp.name + ".smt2"
+			os.WriteFile(f, []byte(sp.opts+body), 0o644)
+			st, _, dt := runSolver(context.Background(), sp, f, timeout)
+			mu.Lock()
+			out = append(out, fmt.Sprintf("%s: %s (%.1fs)", sp.name, st, dt))
+			if st == "unsat" {
+				bad = true
+			}
+			mu.Unlock()
+		}()
+	}
+	wg.Wait()
+	sort.Strings(out)
+	return out, bad
+}
+
 func cmdProbe(args []string) {
 	fs := flag.NewFlagSet("probe", flag.ExitOnError)
 	repo := fs.String("repo", "/repo", "repository")
